@@ -171,6 +171,28 @@ def run(check):
         if mon.late_stage_waits(sem):
             continue  # the known finding about members waiting for stages of steps that can never start (see C15)
         items.append((case, sem, g))
+    # one-of members whose option names contain dots, dashes, spaces or look like paths (the option's name is also part of the
+    # name of a node of the dependency graph); only one alternative is ever produced, so the result is fixed
+    from ..model import OneOf
+    for j, (na, nb) in enumerate([("v1.0", "v2.0"), ("a.b.c", "a.b"), ("x", "x.y"), ("opt-1", "opt 2"), ("0", "1.0"), ("outputs.success", "steps.A"), ("A", "a")] * check.pick(1, 3)):
+        rng = random.Random(derive_seed(check.seed, "c03-optnames", j))
+        A, B = gen.plugin_step("A", Expr(In("tag"))), gen.plugin_step("B", Expr(In("tag")))
+        first = j % 2 == 0
+        t = OneOf("which", {na: Expr(Ref("A", "outputs", "success")), nb: Expr(Ref("B", "outputs", "success"))})
+        steps = [A, B]
+        where = ["output", "step-input", "nested-output"][j % 3]
+        if where == "output":
+            outs = {"success": {"v": t}}
+        elif where == "nested-output":
+            outs = {"success": {"m": {"l": [{"v": t}]}}}
+        else:
+            steps.append(gen.plugin_step("C", Expr(In("tag")), extra_input={"a": {"v": t}}))
+            outs = {"success": {"c": Expr(Ref("C", "outputs", "success"))}}
+        rng.shuffle(steps)
+        outcome = {"B": "error"} if first else {"A": "crash"}
+        g = {"program": Program(steps, outs, gen.BASE_INPUT), "scripts": gen.make_scripts(steps, outcome), "input": gen.base_input(rng), "shape": "one-of-option-names/%s|%s/%s" % (na, nb, where), "outcome": outcome}
+        case, sem = runfam.build_case("c03-on%04d" % j, g)
+        items.append((case, sem, g))
     # lists that start with a constant and go on with expressions (in outputs and step inputs), the steps they refer to being
     # referred to nowhere else and slower than everything else the node needs
     for j in range(check.pick(24, 160)):
